@@ -962,6 +962,9 @@ func genBGP(r *hx.RNG, t *hx.Trace, malformed bool) *bgpT {
 }
 
 func genRoute(r *hx.RNG, t *hx.Trace) *routeT {
+	if t == nil {
+		t = &hx.Trace{Dist: map[string]int{}}
+	}
 	rt := &routeT{dedup: r.Bool()}
 	pf := genIP(r)
 	rt.pfx = &pf
@@ -1030,13 +1033,186 @@ func genRoute(r *hx.RNG, t *hx.Trace) *routeT {
 	return rt
 }
 
+// ---- sequences: a base route and variants that differ from it in exactly one attribute
+
+func cloneRoute(r *routeT) *routeT {
+	c, err := parseRoute(r.String())
+	if err != nil {
+		panic("clone: " + err.Error())
+	}
+	return c
+}
+
+// variantNames: every field of the property (and the hidden reason / prefix), one variant each
+var variantNames = []string{"med", "localpref", "origin", "nexthop", "source", "communities", "large-communities",
+	"cluster-list", "unknown-attributes", "as-path", "bgp-identifier", "originator-id", "ebgp", "otc",
+	"path-identifier", "post-policy", "hidden", "prefix", "same"}
+
+func bumpNums(l *[]uint32, r *hx.RNG) *[]uint32 {
+	n := []uint32{}
+	if l != nil {
+		n = append(n, (*l)...)
+	}
+	if len(n) > 0 && r.Bool() {
+		n[r.Intn(len(n))] ^= 1 << uint(r.Intn(32))
+	} else {
+		n = append(n, genU32(r))
+	}
+	return &n
+}
+
+// variant changes exactly the named attribute of path pi (a well-formed BGP path) of a copy of base
+func variant(base *routeT, pi int, what string, r *hx.RNG) *routeT {
+	v := cloneRoute(base)
+	p := &v.paths[pi]
+	b, a := p.bgp, p.bgp.a
+	flip := func(x uint32) uint32 {
+		switch r.Intn(3) {
+		case 0:
+			return x + 1
+		case 1:
+			return x ^ (1 << uint(r.Intn(32)))
+		}
+		if y := genU32(r); y != x {
+			return y
+		}
+		return x + 7
+	}
+	otherIP := func(i *ipT) *ipT {
+		n := *i
+		n.lo ^= 1 << uint(r.Intn(24))
+		return &n
+	}
+	switch what {
+	case "med":
+		a.med = flip(a.med)
+	case "localpref":
+		a.lp = flip(a.lp)
+	case "origin":
+		a.org = uint8((int(a.org) + 1 + r.Intn(2)) % 3)
+	case "nexthop":
+		a.nh = otherIP(a.nh)
+	case "source":
+		a.src = otherIP(a.src)
+	case "communities":
+		b.co = bumpNums(b.co, r)
+	case "large-communities":
+		l := [][3]uint32{}
+		if b.lc != nil {
+			l = append(l, (*b.lc)...)
+		}
+		l = append(l, [3]uint32{genU32(r), genU32(r), genU32(r)})
+		b.lc = &l
+	case "cluster-list":
+		b.cl = bumpNums(b.cl, r)
+	case "unknown-attributes":
+		b.ua = append(b.ua, uaT{o: true, t: r.Bool(), code: uint8(100 + r.Intn(100)), val: []byte{byte(r.Intn(256))}})
+	case "as-path":
+		l := []segT{}
+		if b.asp != nil {
+			l = append(l, (*b.asp)...)
+		}
+		l = append(l, segT{typ: uint8(1 + r.Intn(2)), asns: []uint32{genU32(r)}})
+		b.asp = &l
+	case "bgp-identifier":
+		a.id = flip(a.id)
+	case "originator-id":
+		a.oid = flip(a.oid)
+	case "ebgp":
+		a.ebgp = !a.ebgp
+	case "otc":
+		a.otc = flip(a.otc)
+	case "path-identifier":
+		b.pid = flip(b.pid)
+	case "post-policy":
+		b.pp = !b.pp
+	case "hidden":
+		p.hid = uint8((int(p.hid) + 1 + r.Intn(5)) % 7)
+	case "prefix":
+		v.pfx = otherIP(v.pfx)
+	case "same":
+	}
+	return v
+}
+
+// genSequence: a well-formed base route with a BGP path, then one variant per attribute (in a random
+// order, sometimes with the base converted again in between); dedup mostly on (the mergedlocrib mode)
+func genSequence(r *hx.RNG, t *hx.Trace) []*routeT {
+	var base *routeT
+	pi := -1
+	for pi < 0 {
+		base = genRoute(r, nil)
+		if !base.wellFormed() {
+			continue
+		}
+		for i := range base.paths {
+			if base.paths[i].typ == route.BGPPathType {
+				pi = i
+			}
+		}
+	}
+	mode := r.Intn(10) // 0-6: dedup always on, 7: always off, 8-9: per conversion
+	dd := func() bool {
+		switch {
+		case mode <= 6:
+			return true
+		case mode == 7:
+			return false
+		}
+		return r.Chance(70)
+	}
+	base.dedup = dd()
+	seq := []*routeT{base}
+	order := make([]int, len(variantNames))
+	for i := range order {
+		order[i] = i
+	}
+	for i := len(order) - 1; i > 0; i-- {
+		j := r.Intn(i + 1)
+		order[i], order[j] = order[j], order[i]
+	}
+	for _, k := range order {
+		v := variant(base, pi, variantNames[k], r)
+		v.dedup = dd()
+		seq = append(seq, v)
+		t.Count("variant_" + variantNames[k])
+		if r.Chance(10) {
+			again := cloneRoute(base)
+			again.dedup = dd()
+			seq = append(seq, again)
+		}
+	}
+	t.Count(fmt.Sprintf("sequence_mode_%d", map[bool]int{true: 1, false: 0}[mode <= 6]+map[bool]int{true: 2, false: 0}[mode >= 8]))
+	return seq
+}
+
+func fmtSeq(seq []*routeT) string {
+	var s []string
+	for _, r := range seq {
+		s = append(s, r.String())
+	}
+	return strings.Join(s, " && ")
+}
+
+func parseSeq(in string) ([]*routeT, error) {
+	var seq []*routeT
+	for _, part := range strings.Split(in, " && ") {
+		r, err := parseRoute(part)
+		if err != nil {
+			return nil, err
+		}
+		seq = append(seq, r)
+	}
+	return seq, nil
+}
+
 func main() {
 	cfg := hx.Parse()
 	tr := hx.NewTrace(cfg.Out)
 	nviol := 0
-	do := func(id string, in *routeT) {
+	// one conversion: observation, violations, non-triviality
+	step := func(in *routeT) (obs string, vs []viol, nt bool) {
 		wf := in.wellFormed()
-		nt := false
 		if wf {
 			for i := range in.paths {
 				if b := in.paths[i].bgp; in.paths[i].typ == route.BGPPathType && b != nil &&
@@ -1046,10 +1222,13 @@ func main() {
 			}
 			tr.Count("wellformed")
 		}
+		if in.dedup {
+			tr.Count("conversions_dedup")
+		} else {
+			tr.Count("conversions_nodedup")
+		}
 		var api *routeapi.Route
 		var back *routeT
-		obs := ""
-		var vs []viol
 		if panicked, val := hx.Guard(func() { api = build(in).ToProto() }); panicked {
 			obs = "PANIC-TO"
 			if wf {
@@ -1066,29 +1245,44 @@ func main() {
 				vs = judge(in, api, back)
 			}
 		}
-		tr.Case(id, nt, in.String(), obs)
+		return
+	}
+	// a case: conversions made one after the other in this process
+	do := func(id string, seq []*routeT) {
+		var obs []string
+		nt := false
 		seen := map[string]bool{}
-		for _, v := range vs {
-			if !seen[v.sig] {
-				seen[v.sig] = true
-				hx.Violation(id, v.sig, v.detail)
-				nviol++
+		var out []viol
+		for k, in := range seq {
+			o, vs, n := step(in)
+			obs = append(obs, o)
+			nt = nt || n
+			for _, v := range vs {
+				if !seen[v.sig] {
+					seen[v.sig] = true
+					out = append(out, viol{v.sig, fmt.Sprintf("conversion %d of %d (dedup=%v): %s", k+1, len(seq), in.dedup, v.detail)})
+				}
 			}
+		}
+		tr.Case(id, nt, fmtSeq(seq), strings.Join(obs, " && "))
+		for _, v := range out {
+			hx.Violation(id, v.sig, v.detail)
+			nviol++
 		}
 	}
 	if cfg.Mode == "replay" {
 		for _, cl := range hx.InputsFrom(cfg.Replay) {
-			in, err := parseRoute(cl[1])
+			seq, err := parseSeq(cl[1])
 			if err != nil {
 				fmt.Println("HARNESS-ERROR bad replay input:", err)
 				os.Exit(2)
 			}
-			do(cl[0], in)
+			do(cl[0], seq)
 		}
 	} else {
 		for _, cl := range hx.InputsFrom(hx.CorpusFiles(cfg.Corpus)...) {
-			if in, err := parseRoute(cl[1]); err == nil {
-				do("corpus-"+cl[0], in)
+			if seq, err := parseSeq(cl[1]); err == nil {
+				do("corpus-"+cl[0], seq)
 				tr.Count("corpus")
 			} else {
 				fmt.Println("HARNESS-ERROR bad corpus line:", cl[0], err)
@@ -1096,12 +1290,20 @@ func main() {
 		}
 		rng := hx.NewRNG(cfg.Seed)
 		for i := 0; i < cfg.N; i++ {
-			g := genRoute(rng.Fork(uint64(i)), tr)
-			// the generator and the parser must agree (the replay depends on it)
-			if back, err := parseRoute(g.String()); err != nil || back.String() != g.String() {
-				fmt.Printf("HARNESS-ERROR case=g%d generated route does not re-parse: %v\n", i, err)
+			r := rng.Fork(uint64(i))
+			var seq []*routeT
+			if i%5 == 0 {
+				seq = genSequence(r, tr)
+				tr.Count("case_sequence")
+			} else {
+				seq = []*routeT{genRoute(r, tr)}
+				tr.Count("case_single")
 			}
-			do(fmt.Sprintf("g%d", i), g)
+			// the generator and the parser must agree (the replay depends on it)
+			if back, err := parseSeq(fmtSeq(seq)); err != nil || fmtSeq(back) != fmtSeq(seq) {
+				fmt.Printf("HARNESS-ERROR case=g%d generated case does not re-parse: %v\n", i, err)
+			}
+			do(fmt.Sprintf("g%d", i), seq)
 		}
 	}
 	tr.Close(cfg.Stats, map[string]interface{}{"spec_violations": nviol})
